@@ -24,6 +24,7 @@ where
     consumed: usize,  // bytes consumed from `buffer`
     remaining: usize, // bytes remaining until next chunk
     reached_eof: bool,
+    failed: bool, // a refill was abandoned half-way, the position in the stream is unknown
 }
 
 impl<R> ChunkedReader<R>
@@ -37,6 +38,7 @@ where
             consumed: 0,
             remaining: 0,
             reached_eof: false,
+            failed: false,
         }
     }
 
@@ -56,7 +58,16 @@ where
     fn fill_buf(&mut self) -> io::Result<&[u8]> {
         const MAX_BUFFER_LEN: usize = 64 * 1024;
 
+        if self.failed {
+            return Err(io::ErrorKind::UnexpectedEof.into());
+        }
+
         if self.buffer.len() == self.consumed && !(self.remaining == 0 && self.reached_eof) {
+            // Any early return below leaves the reader failed and empty.
+            self.failed = true;
+            self.buffer.clear();
+            self.consumed = 0;
+
             if self.remaining == 0 {
                 self.remaining = self.read_chunk_size()?;
                 if self.remaining == 0 {
@@ -75,6 +86,8 @@ where
 
                 return Err(InvalidResponseKind::Chunk.into());
             }
+
+            self.failed = false;
         }
 
         Ok(&self.buffer[self.consumed..])
